@@ -110,6 +110,28 @@ CLAIMS = {
         "note": TB + " Not decided: that the lane arithmetic implements a contiguous queue (value-level), hence panic-freedom proper.",
         "technique": "static analysis: call-graph effect reachability, loop-shape rules, constant relations, panic-site inventory",
     },
+    "C09": {
+        "text": "Static ordering-protocol rules: in all three iterator actions the slot store dominates the wake and both happen on every path; load is "
+                "called only while scanning, the drain only from pending() and before anything that can reach load, batches are built fresh with "
+                "position 0; poll_signal asks the callback only after next() returned None and scans a new batch first; next() advances only on None.",
+        "note": TB + " Not decided: the liveness theorem over all interleavings; weak-memory outcomes (ordered by the send/recv system calls).",
+        "technique": "static analysis: dominance / must-pass-through on MIR CFGs, who-may-call over the call graph, control-dependence facts",
+    },
+    "C10": {
+        "text": "Static RMW/provenance rules: SignalOnly::load yields Some only where compare_exchange(true->false) succeeded; channel-backed loads return "
+                "what Channel::recv handed out; next() uses one position as slot index and signal number; the action stores into slots[captured signal] "
+                "registered for that signal; the record is a by-value copy of the handler's info; WithOrigin delegates on the same slot.",
+        "note": TB + " Not decided: counting inequalities over histories; per-signal record order (C06).",
+        "technique": "static analysis: branch facts on atomic RMW results, index/argument provenance over MIR",
+    },
+    "C11": {
+        "text": "Static rules: closed is only ever stored true; close() stores before waking and always wakes; PollResult::Pending is constructed only "
+                "on the readiness callback's Ok(false) branch of that invocation (a delegate must consult the callback on every path) and adapters "
+                "return Poll::Pending only from that arm; blocking callbacks are consulted only when not closed; every recv carries MSG_DONTWAIT. "
+                "Found and repaired the closed-early-return defect.",
+        "note": TB + " Assumes a callback answering Ok(false) has armed a wake-up. Not decided: liveness of the kernel's wake-up delivery.",
+        "technique": "static analysis: control-dependence facts, must-pass-through callee summaries, constant arguments on MIR",
+    },
 }
 
 PENDING = "check under construction in this round (rules designed in DESIGN.md §4); not claimed until the rule set runs clean"
